@@ -47,7 +47,7 @@ func (verifACL) GetContractMethodACL(string, string) (*protos.Acl, error) { retu
 func (verifACL) GetAccountAddresses(string) ([]string, error)             { return nil, nil }
 
 type verifOp struct {
-	kind int // 0 get, 1 put, 2 delete, 3 charge a fee, 4 fail
+	kind int // 0 get, 1 put, 2 delete, 3 charge a fee, 4 fail, 5 range scan recorded in k3, 6 nested call
 	key  string
 }
 
@@ -76,9 +76,12 @@ func verifC09(nops int) {
 	// the program
 	ops := make([]verifOp, nops)
 	for i := range ops {
-		ops[i] = verifOp{kind: vrt.Choice("op", 5), key: verifKeys[vrt.Choice("key", len(verifKeys))]}
+		ops[i] = verifOp{kind: vrt.Choice("op", 7)}
+		if ops[i].kind <= 2 {
+			ops[i].key = verifKeys[vrt.Choice("key", len(verifKeys))]
+		}
 	}
-	fee := vrt.Int("fee", 0, 3)
+	fee := []int64{0, 2}[vrt.Choice("fee", 2)]
 	program := func(ctx contract.KContext) (*contract.Response, error) {
 		v := ctx.Args()["v"]
 		for i, op := range ops {
@@ -97,11 +100,42 @@ func verifC09(nops int) {
 				ctx.AddResourceUsed(contract.Limits{XFee: fee})
 			case 4:
 				return nil, errors.New("program fails")
+			case 5: // scan [k1, k3) and record how many live keys were seen
+				it, err := ctx.Select("c09", []byte("k1"), []byte("k3"))
+				if err != nil {
+					return nil, err
+				}
+				n := 0
+				for it.Next() {
+					n++
+				}
+				it.Close()
+				if err := ctx.Put("c09", []byte("k3"), []byte{'n', byte('0' + n)}); err != nil {
+					return nil, err
+				}
+			case 6: // nested call into another kernel contract
+				r, err := ctx.Call("xkernel", "$c09sub", "put", map[string][]byte{"v": v})
+				if err != nil {
+					return nil, err
+				}
+				if r.Status != 200 {
+					return nil, errors.New("nested call failed")
+				}
 			}
 		}
 		return &contract.Response{Status: 200, Body: []byte("ok")}, nil
 	}
 	mgr.GetKernRegistry().RegisterKernMethod("$c09", "run", program)
+	mgr.GetKernRegistry().RegisterKernMethod("$c09", "noop", func(ctx contract.KContext) (*contract.Response, error) {
+		return &contract.Response{Status: 200}, nil
+	})
+	mgr.GetKernRegistry().RegisterKernMethod("$c09sub", "put", func(ctx contract.KContext) (*contract.Response, error) {
+		if err := ctx.Put("c09", []byte("k2"), append([]byte("sub"), ctx.Args()["v"]...)); err != nil {
+			return nil, err
+		}
+		ctx.AddResourceUsed(contract.Limits{XFee: 1})
+		return &contract.Response{Status: 200}, nil
+	})
 
 	chain := &Chain{ctx: &common.ChainCtx{BCName: "c09", Ledger: e.L, State: s, Contract: mgr, Crypto: st}, log: vlog.Nop{}}
 	chain.ctx.XLog = vlog.Nop{}
@@ -124,25 +158,70 @@ func verifC09(nops int) {
 		verifC09Same(before, verifC09Read(s), "failed-call-changes-nothing")
 		return
 	}
-	// reference model of the program over the prior state
-	want := map[string]string{}
-	for k, v := range before {
-		want[k] = v
+	// reference model of the program over the prior state, as a function of the argument
+	model := func(arg []byte) (map[string]string, int64) {
+		want := map[string]string{}
+		for k, v := range before {
+			want[k] = v
+		}
+		used := int64(0)
+		for i, op := range ops {
+			switch op.kind {
+			case 1:
+				want[op.key] = string(append([]byte{byte('a' + i)}, arg...))
+			case 2:
+				want[op.key] = ""
+			case 3:
+				used += fee
+			case 5:
+				n := 0
+				for _, k := range []string{"k1", "k2"} {
+					if want[k] != "" {
+						n++
+					}
+				}
+				want["k3"] = string([]byte{'n', byte('0' + n)})
+			case 6:
+				// the fee the nested kernel method charges is not metered to the caller (bridge.Context.ResourceUsed:
+				// "kernel contracts only count the VM's own consumption"); the model follows the code's metering
+				want["k2"] = "sub" + string(arg)
+			}
+		}
+		return want, used
 	}
-	used := int64(0)
-	for i, op := range ops {
-		switch op.kind {
-		case 1:
-			want[op.key] = string(append([]byte{byte('a' + i)}, val...))
-		case 2:
-			want[op.key] = ""
-		case 3:
-			used += fee
+	want, used := model(val)
+	otherArg := append([]byte("y"), val...)
+	wantOther, _ := model(otherArg)
+	argMatters := false
+	for _, k := range verifKeys {
+		if want[k] != wantOther[k] {
+			argMatters = true
 		}
 	}
 	vrt.Assert(resp.GasUsed == used, "reported-gas-is-what-the-program-charged")
+	nwrites := 0
+	// known-finding class: a nested kernel call whose callee charges more than what the caller itself
+	// charges after the call (pre-execution declares the caller's own consumption only; at verification
+	// the callee runs under declared-minus-consumed-so-far)
+	nestedStarved := false
+	for i, op := range ops {
+		if op.kind == 6 {
+			after := int64(0)
+			for _, o := range ops[i+1:] {
+				if o.kind == 3 {
+					after += fee
+				}
+			}
+			if after < 1 {
+				nestedStarved = true
+			}
+		}
+	}
+	nwrites = len(resp.Outputs)
+	vrt.Cover("program-with-scan", ops[0].kind == 5 || ops[len(ops)-1].kind == 5)
+	vrt.Cover("program-with-nested-call", ops[0].kind == 6 || ops[len(ops)-1].kind == 6)
 	// assemble, sign, verify, commit
-	pay := vrt.Int("pay", 0, 9)
+	pay := []int64{0, 1, 2, 3, 6}[vrt.Choice("pay", 5)]
 	tx := &lpb.Transaction{Version: 3, Initiator: "A", Nonce: "n1", Timestamp: 7, Desc: []byte("c09"),
 		ContractRequests: resp.Requests, TxInputsExt: resp.Inputs, TxOutputsExt: resp.Outputs,
 		TxInputs: []*protos.TxInput{vkit.In(e.RootTx.Txid, 0, "A", big.NewInt(9))}}
@@ -152,21 +231,82 @@ func verifC09(nops int) {
 	if pay < 9 {
 		tx.TxOutputs = append(tx.TxOutputs, vkit.Out("A", big.NewInt(9-pay), 0))
 	}
+	// a single mutation of the assembled transaction (0: none); id and signature are recomputed so
+	// that only the read / write-set logic can refuse it
+	mut := vrt.Choice("mutation", 7)
+	applicable := true
+	switch mut {
+	case 1: // a declared write carries another value
+		if nwrites == 0 {
+			applicable = false
+		} else {
+			o := tx.TxOutputsExt[0]
+			tx.TxOutputsExt[0] = &protos.TxOutputExt{Bucket: o.Bucket, Key: o.Key, Value: append([]byte("x"), o.Value...)}
+		}
+	case 2: // a declared write is dropped
+		if nwrites == 0 {
+			applicable = false
+		} else {
+			tx.TxOutputsExt = tx.TxOutputsExt[:nwrites-1]
+		}
+	case 3: // an extra write the program does not make
+		tx.TxOutputsExt = append(append([]*protos.TxOutputExt{}, tx.TxOutputsExt...), &protos.TxOutputExt{Bucket: "c09", Key: []byte("zz"), Value: []byte("x")})
+	case 4: // a declared read cites a version that is not current
+		if len(tx.TxInputsExt) == 0 {
+			applicable = false
+		} else {
+			in := tx.TxInputsExt[0]
+			tx.TxInputsExt[0] = &protos.TxInputExt{Bucket: in.Bucket, Key: in.Key, RefTxid: []byte("bogus"), RefOffset: in.RefOffset}
+		}
+	case 5: // the request declares less than the execution uses
+		if used == 0 {
+			applicable = false
+		} else {
+			r := *tx.ContractRequests[0]
+			r.ResourceLimits = []*protos.ResourceLimit{{Type: protos.ResourceType_XFEE, Limit: used - 1}}
+			tx.ContractRequests = []*protos.InvokeRequest{&r}
+		}
+	case 6: // another argument than the one pre-executed
+		if !argMatters {
+			applicable = false
+		} else {
+			r := *tx.ContractRequests[0]
+			r.Args = map[string][]byte{"v": otherArg}
+			tx.ContractRequests = []*protos.InvokeRequest{&r}
+		}
+	}
+	if !applicable || (mut != 0 && nestedStarved) {
+		return
+	}
 	digest, derr := txhash.MakeTxDigestHash(tx)
 	vrt.Assert(derr == nil, "digest-computed")
 	tx.InitiatorSigns = []*protos.SignatureInfo{{PublicKey: "K0", Sign: st.Sign(0, digest)}}
 	tx.Txid, _ = txhash.MakeTransactionID(tx)
 	ok, verr := s.VerifyTx(tx)
 	accepted := ok && verr == nil
-	vrt.Cover("verified", accepted)
-	vrt.Assert(accepted == (pay >= used), "pre-executed-transaction-verifies-iff-it-pays-for-what-it-used")
-	if !accepted {
+	if mut == 0 {
+		vrt.Cover("verified", accepted)
+		vrt.Known("nested-kernel-call-charge-exceeds-declared-limit", nestedStarved)
+		vrt.Assert(accepted == (pay >= used), "pre-executed-transaction-verifies-iff-it-pays-for-what-it-used")
+		if !accepted {
+			verifC09Same(before, verifC09Read(s), "rejected-transaction-changes-nothing")
+			return
+		}
+		vrt.Assert(s.DoTx(tx) == nil, "verified-transaction-is-admitted")
+		got := verifC09Read(s)
+		for _, k := range verifKeys {
+			vrt.Assert(got[k] == want[k], "committed-state-is-the-pre-executed-write-set")
+		}
 		return
 	}
-	vrt.Assert(s.DoTx(tx) == nil, "verified-transaction-is-admitted")
-	got := verifC09Read(s)
-	for _, k := range verifKeys {
-		vrt.Assert(got[k] == want[k], "committed-state-is-the-pre-executed-write-set")
+	if pay < used {
+		return // refused for the fee already; the mutation is not what is examined
+	}
+	admitted := accepted && s.DoTx(tx) == nil
+	vrt.Cover("mutation-examined", true)
+	vrt.Assert(!admitted, "mutated-transaction-is-rejected")
+	if !admitted {
+		verifC09Same(before, verifC09Read(s), "rejected-transaction-changes-nothing")
 	}
 }
 
@@ -193,4 +333,5 @@ func verifC09Same(a, b map[string]string, label string) {
 	}
 }
 
-func VerifC09Quick() { verifC09(2) }
+func VerifC09Quick()    { verifC09(2) }
+func VerifC09Thorough() { verifC09(3) }
